@@ -55,7 +55,8 @@ Proof.
   set (x1 := x + sprite_width sprite - 1). set (y1 := y + zlen sprite - 1).
   (* the bounds tests passed *)
   assert (Hcont : vp_contains vp x y = true /\ vp_contains vp x1 y1 = true).
-  { unfold exec in Hok. rewrite Ht, guard_graphics in Hok. cbn [stmt_reqs] in Hok. unfold put_reqs in Hok.
+  { unfold exec in Hok. rewrite Ht, guard_graphics in Hok. cbn [stmt_reqs] in Hok. rewrite (rectify_id sprite Hs) in Hok.
+    unfold put_reqs in Hok.
     fold vp x1 y1 in Hok.
     destruct (vp_contains vp x y); [|cbn in Hok; discriminate].
     destruct (vp_contains vp x1 y1); [split; reflexivity | cbn in Hok; discriminate]. }
@@ -72,7 +73,7 @@ Proof.
             exec (GS false (g_bpp st) pages (g_apage st) vp) (SPut x y sprite 4)
             = (Ok tt, GS false (g_bpp st) (set_page pages (g_apage st) m0') (g_apage st) vp)).
   { intros pages Hl m0' Hput. unfold exec. cbn [g_text g_vp g_pages g_apage g_bpp]. rewrite guard_graphics.
-    cbn [stmt_reqs g_vp g_bpp]. unfold put_reqs. fold x1 y1. rewrite Hc0, Hc1. cbn [negb].
+    cbn [stmt_reqs g_vp g_bpp]. rewrite (rectify_id sprite Hs). unfold put_reqs. fold x1 y1. rewrite Hc0, Hc1. cbn [negb].
     replace (4 =? 0) with false by reflexivity. replace (4 =? 1) with false by reflexivity.
     replace (4 =? 2) with false by reflexivity. replace (4 =? 3) with false by reflexivity.
     cbn [bind vp_run]. unfold vp_setitem, vp_getslice. cbn [rq_y rq_x rq_data]. rewrite Hcv.
